@@ -16,7 +16,7 @@ import (
 func init() {
 	Register(&Scenario{
 		Prop: "C19", Run: scenarioC19, QuickRuns: 24000, ThoroughRuns: 4000000, Level: "exploration",
-		Rule:       "one run = one seeded experiment executed by the real Experiment.Execute with the scripted evaluator (complete, solved early, or cut short by an evaluator error / cancellation); afterwards every experiment- and trial-level aggregate is recomputed from the recorded generations by the reference and compared, and every Floats accessor is evaluated on every recorded series (per-species fitness, age and complexity - naturally unsorted), on tape-chosen permutations and prefixes of them (incl. the empty one) against textbook mean, unbiased variance, standard deviation, min, max, sum and the empirical quantile x(ceil(n*p)); a panic is a violation. A case is one series or one aggregate comparison; non-trivial when a series has >= 3 elements out of order or the experiment has a solved and an unsolved trial; distinct by series hash",
+		Rule:       "one run = one seeded experiment executed by the real Experiment.Execute with the scripted evaluator (complete, solved early, or cut short by an evaluator error / cancellation); afterwards every experiment- and trial-level aggregate (solved count, success rate, per-trial best fitness / species age / complexity, diversity, epochs per trial and their average, winner statistics per trial and averaged, per-generation champion ages, complexities and series averages, best-organism searches of trial and experiment with and without the solvers-only filter) is recomputed from the recorded generations by the reference and compared, and every Floats accessor is evaluated on every recorded series (per-species fitness, age and complexity - naturally unsorted), on tape-chosen permutations and prefixes of them (incl. the empty one) against textbook mean, unbiased variance, standard deviation, min, max, sum and the empirical quantile x(ceil(n*p)); a panic is a violation. A case is one series or one aggregate comparison; non-trivial when a series has >= 3 elements out of order or the experiment has a solved and an unsolved trial; distinct by series hash",
 		RealParts:  []string{"experiment.Floats, Experiment / Trial / Generation aggregate accessors, Generation.FillPopulationStatistics", "Experiment.Execute producing the records (sequential executor, fake clock)"},
 		StubParts:  []string{"GenerationEvaluator (scripted)", "wall clock"},
 		Assumes:    []string{"reference meanings are the accessor documentation: solved count = trials with a solved generation; per-trial best = the generation champion of maximal fitness (ties: any of them); winner statistics = first solved generation, averaged over solved trials, -1 when none; trials left unrecorded by an aborted run are zero-valued records", "relative tolerance 1e-9"},
